@@ -199,6 +199,10 @@ func panicInSUT(stack string) bool {
 	return false
 }
 
+// PanicInSUT is the exported form of the panic classifier (for engines that
+// capture panics on their own goroutines).
+func PanicInSUT(stack string) bool { return panicInSUT(stack) }
+
 func trimStack(s string) string {
 	if len(s) > 3000 {
 		return s[:3000]
@@ -457,10 +461,16 @@ func reportViolation(t *testing.T, opt Options, fn EngineFunc, known *KnownFindi
 			if !sameViolation(viol, o, opt, r.Property) {
 				return false
 			}
-			if minimised && len(c.Recorded()) > len(best) {
+			rec := c.Recorded()
+			// an exhausted replay list yields zeros: trailing zero choices
+			// carry no information
+			for len(rec) > 0 && rec[len(rec)-1].V == 0 {
+				rec = rec[:len(rec)-1]
+			}
+			if minimised && len(rec) > len(best) {
 				return false // never trade for a longer trace
 			}
-			best = append([]Choice{}, c.Recorded()...)
+			best = append([]Choice{}, rec...)
 			bestRun = o.r
 			if o.r.viol != nil {
 				bestViol = o.r.viol
